@@ -110,6 +110,32 @@ fn main() {
         let v = judge(x, n <= 3, st);
         report(&ctx, x, "b", v, st);
     });
+    // (b2) edit closure: every string the model accepts among the token strings of depth <= 3, with every single-character
+    // insertion and substitution over all printable ASCII plus a few non-ASCII characters (a regex class typo such as
+    // [A-z], a wrong separator class, ... shows up one edit away from the language)
+    let sb2 = {
+        let base: Vec<String> = { let m = std::sync::Mutex::new(std::collections::BTreeSet::new()); for_each_string(&tokens, 3, |x, _n, _st| { if rp::parse(x).is_some() { m.lock().unwrap().insert(x.to_string()); } }); m.into_inner().unwrap().into_iter().collect() };
+        let syms: Vec<char> = (0x20u8..0x7f).map(|b| b as char).chain(['\t', '\n', 'é', '٣', 'ſ', '\u{212A}', '\u{a0}']).collect();
+        use rayon::prelude::*;
+        base.par_iter().map(|b| {
+            let mut st = Stats::default();
+            st.inc("edit_base_strings");
+            let chars: Vec<char> = b.chars().collect();
+            let mut buf = String::new();
+            for i in 0..=chars.len() { for &e in &syms {
+                buf.clear(); buf.extend(&chars[..i]); buf.push(e); buf.extend(&chars[i..]);
+                st.inc("edits");
+                let v = judge(&buf, false, &mut st); report(&ctx, &buf, "b2", v, &mut st);
+                if i < chars.len() && e != chars[i] {
+                    buf.clear(); buf.extend(&chars[..i]); buf.push(e); buf.extend(&chars[i + 1..]);
+                    st.inc("edits");
+                    let v = judge(&buf, false, &mut st); report(&ctx, &buf, "b2", v, &mut st);
+                }
+            }}
+            st
+        }).reduce(Stats::default, Stats::merge)
+    };
+    let sb = sb.merge(sb2);
     // (c) full product of spelling variants
     let epoch = ["", "0!", "1!", "01!"];
     let release: &[&str] = if quick { &["1", "1.0", "01.2"] } else { &["1", "1.0", "01.2", "1.2.3.4", "0"] };
